@@ -41,17 +41,22 @@ import (
 	"github.com/libp2p/go-libp2p/core/protocol"
 	"github.com/libp2p/go-libp2p/p2p/host/peerstore/pstoremem"
 	ma "github.com/multiformats/go-multiaddr"
+	handshakepb "github.com/primevprotocol/mev-commit/gen/go/handshake/v1"
 	mockkeysigner "github.com/primevprotocol/mev-commit/pkg/keysigner/mock"
 	"github.com/primevprotocol/mev-commit/pkg/p2p"
 	"github.com/primevprotocol/mev-commit/pkg/p2p/libp2p/internal/handshake"
 	"github.com/primevprotocol/mev-commit/pkg/signer"
 	"github.com/primevprotocol/mev-commit/pkg/util"
+	"github.com/prometheus/client_golang/prometheus"
 	"google.golang.org/protobuf/types/known/structpb"
 )
 
 type c14Ev struct {
 	K string // connect | enrol | closed | lookup | track | start | end | rmstream | enrolrace | block | reenrolrace
 	//              block: Service.blockPeer(peer P, forever)
+	//              hsfail: peer P opens a handshake stream on connection C with an invalid signature:
+	//              the real Service.handleConnectReq refuses and blocks it (reported as the event
+	//              BlockPeer P: the registry must be left alone)
 	//              connect: the enrolment is made by Service.Connect (outbound): real handshake with a
 	//              real responder over an in-memory pipe, on connection C whose IsClosed answers
 	//              Closed; the proven address is that of peer P's key, the role R.  When the peer is
@@ -375,7 +380,7 @@ func c14Run(in c14In, hdrFrame []byte, slow int) (obs c14Obs) {
 		host:       fh,
 		peers:      newPeerRegistry(),
 		logger:     logger,
-		metrics:    new(metrics),
+		metrics:    newMetrics(prometheus.NewRegistry(), "verif"),
 		hsInflight: make(map[peer.ID][]chan struct{}),
 		blockMap:   make(map[peer.ID]blockInfo),
 	}
@@ -729,6 +734,25 @@ func c14Run(in c14In, hdrFrame []byte, slow int) (obs c14Obs) {
 				}
 			case "block":
 				svc.blockPeer(pids[ev.P], 0, "verif")
+			case "hsfail":
+				st.Ev = c14Ev{K: "block", P: ev.P}
+				endA, endB := net.Pipe()
+				ctx, cancel := context.WithTimeout(context.Background(), c14Wait)
+				sent := make(chan struct{})
+				go func() {
+					defer close(sent)
+					_ = newStream(&c14Pipe{end: endB}, nil, nil).WriteMsg(ctx, &handshakepb.HandshakeReq{
+						PeerType: "bidder", Token: "verif", Sig: make([]byte, 65)})
+					_, _ = io.Copy(io.Discard, endB)
+				}()
+				svc.handleConnectReq(&c14Pipe{end: endA, conn: conns[ev.P][ev.C]})
+				_ = endA.Close()
+				_ = endB.Close()
+				<-sent
+				cancel()
+				if !svc.isBlocked(pids[ev.P]) {
+					panic("c14: the failed inbound handshake did not block the peer")
+				}
 			default:
 				panic("c14: unknown event " + ev.K)
 			}
@@ -1140,7 +1164,11 @@ func c14GenBlockRegistered(r *rand.Rand) c14In {
 			g.streamStep(0)
 		}
 	}
-	g.add(c14Ev{K: "block", P: p})
+	if r.Intn(2) == 0 {
+		g.add(c14Ev{K: "block", P: p})
+	} else {
+		g.add(c14Ev{K: "hsfail", P: p, C: r.Intn(g.in.NC)})
+	}
 	if r.Intn(3) == 0 {
 		g.add(c14Ev{K: "block", P: (p + 1) % g.in.NP})
 	}
@@ -1227,6 +1255,7 @@ func TestVerifC14(t *testing.T) {
 	run("pinned", small(c14Ev{K: "enrol"}, c14Ev{K: "lookup"}, c14Ev{K: "track"}, c14Ev{K: "start"}, c14Ev{K: "closed"}, c14Ev{K: "end"}))
 	run("pinned", small(c14Ev{K: "lookup"}, c14Ev{K: "track"}, c14Ev{K: "enrol"}, c14Ev{K: "closed"}, c14Ev{K: "closed"}))
 	run("pinned", small(c14Ev{K: "enrol"}, c14Ev{K: "block"}, c14Ev{K: "closed"}))
+	run("pinned", small(c14Ev{K: "enrol"}, c14Ev{K: "hsfail"}, c14Ev{K: "closed"}))
 	run("pinned", c14In{NP: 1, NC: 2, NA: 1, NS: 1, Evs: []c14Ev{{K: "enrol"}, {K: "reenrolrace", C: 0, C2: 1}, {K: "closed", C: 1}}})
 	run("pinned", small(c14Ev{K: "connect", Closed: true}))
 	run("pinned", small(c14Ev{K: "connect", R: 1}, c14Ev{K: "lookup"}, c14Ev{K: "track"}, c14Ev{K: "start"}, c14Ev{K: "closed"}))
